@@ -22,7 +22,17 @@ MAXFAIL = 40
 
 
 def conc(tag, v, pal):
-    return None if v == -1 else A.concrete(tag, v, pal)
+    if v == -1:
+        return None
+    if tag in ("xl", "xr"):
+        # object-dtype key columns whose EQUAL keys have different Python types on the two sides (1 / True, 12 / 12.0):
+        # joins match by ==, like dict lookup, in every join kind
+        if v % 2:
+            return "s%d" % v
+        if v == 0:
+            return 1 if tag == "xl" else True
+        return (10 + v) if tag == "xl" else float(10 + v)
+    return A.concrete(tag, v, pal)
 
 
 class Side:
@@ -109,16 +119,19 @@ def replay_join(cases_path, out_path):
     for n, c in enumerate(cases):
         n = c.get("_n", n)
         nk = len(c["lk"][0]) if c["lk"] else (len(c["rk"][0]) if c["rk"] else 1)
-        tag = (KEY_TAGS + ["intc"])[n % 5]          # "intc": distinct ints with colliding hashes
+        tag = (KEY_TAGS + ["intc", "x"])[n % 6]     # "intc": distinct ints with colliding hashes; "x": cross-type equal keys
         pal = (n // 5) % 3
         variant = (n // 15) % 3
         same_names = (n // 45) % 2 == 0
         lrows = [list(k) + [100 + i, (-1 if i % 2 else 7)] for i, k in enumerate(c["lk"])]
         rrows = [list(k) + [200 + j] for j, k in enumerate(c["rk"])]
-        lnames = ["k%d" % (i + 1) for i in range(nk)] + ["lid", "l pay"]
-        rnames = [("k%d" if same_names else "r%d") % (i + 1) for i in range(nk)] + ["rid"]
-        L = Side(lrows, nk + 2, [tag] * nk + ["int", "str"], [pal] * nk + [0, 0], lnames)
-        R = Side(rrows, nk + 1, [tag] * nk + ["int"], [pal] * nk + [0], rnames)
+        # payload columns also under names that are not strings (an int year, a float, a tuple), unnamed and repeated:
+        # "under their original names" means the very objects
+        lpay, rpay = [["lid", "l pay"], [2023, 2.5], [None, None], ["lid", "lid"], [("t", 1), True]][(n // 7) % 5], ["rid", 2023, None, "lid", 0][(n // 7) % 5]
+        lnames = ["k%d" % (i + 1) for i in range(nk)] + lpay
+        rnames = [("k%d" if same_names else "r%d") % (i + 1) for i in range(nk)] + [rpay]
+        L = Side(lrows, nk + 2, [tag if tag != "x" else "xl"] * nk + ["int", "str"], [pal] * nk + [0, 0], lnames)
+        R = Side(rrows, nk + 1, [tag if tag != "x" else "xr"] * nk + ["int"], [pal] * nk + [0], rnames)
         expect = c["expect"]
         if expect == "bogus":
             # "any other expect value is always rejected": every spelling that is not one of the four words
@@ -178,6 +191,14 @@ def record_join(seed, n, maxrows, out_path):
         lp, rp = rnd.randint(0, 3), rnd.randint(0, 3)
         ln, rn = rnd.choice([0, 1, 2, maxrows // 2, maxrows]), rnd.choice([0, 1, 3, maxrows // 2, maxrows])
         ln, rn = rnd.randint(0, ln), rnd.randint(0, rn)
+        if eid % 8 == 0:
+            # a longer right table, mostly unmatched, more distinct keys than a small hash set holds in insertion order
+            ln, rn = rnd.randint(0, 5), rnd.randint(9, 26)
+            kdom = list(range(0, 31)) + [-1]
+            if eid % 16 == 0:
+                # ... or mostly MATCHED with a few unmatched rows scattered at high positions
+                ln = rnd.randint(4, 7)
+                kdom = [0, 1, 2, 3] * 4 + [20, 21]
         lrows, rrows = rand_rows(rnd, ln, kdom, nk, lp), rand_rows(rnd, rn, kdom, nk, rp)
         tags = [rnd.choice(KEY_TAGS) for _ in range(nk)]
         pals = [rnd.randint(0, 2) for _ in range(nk)]
